@@ -74,6 +74,11 @@ func (p *{{$TypeName}}) CountSetFields{{$TypeName}}() int {
 	}
 	{{- end}}
 	{{- end}}
+	{{- if Features.KeepUnknownFields}}
+	if len(p._unknownFields) > 0 {
+		count++ // a member this version does not know is carried along and written back
+	}
+	{{- end}}
 	return count
 }
 {{- end}}
